@@ -39,7 +39,7 @@ func replayMain(args []string) int {
 		fmt.Println(err)
 		return 2
 	}
-	wd := filepath.Join(verifRoot(), "out", "work", "replaycmd")
+	wd := filepath.Join(outRoot(), "out", "work", "replaycmd")
 	_, raw, _ := nativeRun(nat, r.Package, []replayCase{r.Case}, false, wd, 120*time.Second)
 	fmt.Println(raw)
 	return 0
